@@ -46,6 +46,41 @@ Proof.
     rewrite app_length, Nat.add_assoc. reflexivity.
 Qed.
 
+(* embedded in a larger concatenation the chain still behaves as ONE literal: whatever precedes it
+   hands over its results, each is continued exactly when the text contains s there, by |s| bytes,
+   with the captures untouched and the group numbering of what follows unshifted *)
+Lemma lits_go_app fuel cs post : forall g ix caps, (cs = [] -> ix <= length t) ->
+  cgo fuel g (map lit cs ++ post) (ix, caps) =
+  if lit_at t ix (concat cs) then cgo fuel g post (ix + length (concat cs), caps) else [].
+Proof.
+  induction cs as [|c cs IH]; intros g ix caps Hb; cbn [map concat app].
+  - cbn [lit_at length]. replace (ix <=? length t) with true by (symmetry; apply Nat.leb_le; auto).
+    now rewrite Nat.add_0_r.
+  - cbn [cgo]. rewrite lit_at_app. cbn [lit sem]. destruct (lit_at t ix c) eqn:Ec; cbn [flat_map andb]; [|reflexivity].
+    rewrite app_nil_r. fold (cgo fuel). cbn [ngroups]. rewrite Nat.add_0_r.
+    rewrite IH by (intros _; now apply lit_at_le). rewrite app_length, Nat.add_assoc. reflexivity.
+Qed.
+
+Lemma cgo_app fuel a : forall b g st, cgo fuel g (a ++ b) st = flat_map (cgo fuel (g + ngroups_list a) b) (cgo fuel g a st).
+Proof.
+  induction a as [|x a IH]; intros b g st; cbn [app cgo].
+  - unfold ngroups_list. cbn [fold_right flat_map]. now rewrite Nat.add_0_r, app_nil_r.
+  - fold (cgo fuel).
+    replace (g + ngroups_list (x :: a)) with (g + ngroups x + ngroups_list a) by (unfold ngroups_list; cbn [fold_right]; lia).
+    induction (sem cx x fuel g st) as [|s1 l IHl]; cbn [flat_map]; [reflexivity|].
+    rewrite flat_map_app, IHl, IH. reflexivity.
+Qed.
+
+Theorem sem_embedded fuel pre cs post g st : cs <> [] ->
+  sem cx (Concat (pre ++ map lit cs ++ post)) fuel g st =
+  flat_map (fun s1 => if lit_at t (fst s1) (concat cs)
+                      then cgo fuel (g + ngroups_list pre) post (fst s1 + length (concat cs), snd s1) else [])
+           (cgo fuel g pre st).
+Proof.
+  intros Hne. destruct st as [ix0 caps0]. change (sem cx (Concat (pre ++ map lit cs ++ post)) fuel g (ix0, caps0)) with (cgo fuel g (pre ++ map lit cs ++ post) (ix0, caps0)).
+  rewrite cgo_app. apply flat_map_ext. intros [ix caps]. cbn [fst snd]. apply lits_go_app. intros E. now destruct Hne.
+Qed.
+
 Theorem sem_lits fuel cs g ix caps : (cs = [] -> ix <= length t) ->
   sem cx (finish (map lit cs)) fuel g (ix, caps) =
   if lit_at t ix (concat cs) then [(ix + length (concat cs), caps)] else [].
